@@ -360,7 +360,9 @@ func (g *G) cdxNode(id string, v int, inClass bool) M {
 			if v >= 5 && g.Chance(0.4) {
 				pool = cdxRefTypes15
 			}
-			r := M{"t": float64(g.Pick2(pool)), "u": g.Pick([]string{"http://a", "https://b/c?d=e"})}
+			r := M{"t": float64(g.Pick2(pool)), "u": g.Pick([]string{"http://a", "https://b/c?d=e",
+				// locators are text: nothing rewrites them
+				"https://example.com/handbuch/überblick", "HTTP://EXAMPLE.com/x y", "just some text", "https://x/#", "git@host:org/repo.git"})}
 			if g.Chance(0.4) {
 				r["c"] = g.text()
 			}
@@ -524,8 +526,11 @@ func (g *G) nativeBOM() M {
 		cnt++
 		ref := ""
 		switch g.Int(7) {
-		case 0, 1, 2:
+		case 0, 1:
 			ref = fmt.Sprintf("c%d", cnt)
+		case 2:
+			// references are free text: the characters a key built from them might be cut at
+			ref = fmt.Sprintf("c%d", cnt) + g.Pick([]string{"", "+++core", "+++", ":x", "+y", " z", "|w", "+++DEPENDS_ON"})
 		case 3:
 			ref = g.Pick([]string{"dup", "c1", "protobom-auto--000000002"})
 		case 6:
